@@ -59,9 +59,14 @@ enum Kind {
 	SubTrackSpatial,
 	/// the sub-track storage of a spatial track (`SpatialTrackHandle::{add_sub_track, add_spatial_sub_track}`)
 	SubTrackOfSpatial,
+	/// sounds of a sub-track built with `persist_until_sounds_finish(true)`: the TrackHandle (owner of the
+	/// gameplay side of the sound storage) can be dropped while the storage lives on (`OAbandon`)
+	SoundPersist,
+	/// sub-tracks of a parent track whose TrackHandle can be dropped while children keep the parent alive
+	SubTrackOrphan,
 	SendTrack,
 }
-const KINDS: [Kind; 12] = [
+const KINDS: [Kind; 14] = [
 	Kind::Modulator,
 	Kind::ModBuiltin,
 	Kind::Clock,
@@ -73,6 +78,8 @@ const KINDS: [Kind; 12] = [
 	Kind::SubTrackNested,
 	Kind::SubTrackSpatial,
 	Kind::SubTrackOfSpatial,
+	Kind::SoundPersist,
+	Kind::SubTrackOrphan,
 	Kind::SendTrack,
 ];
 impl Kind {
@@ -89,6 +96,8 @@ impl Kind {
 			Kind::SubTrackNested => "sub_track_nested",
 			Kind::SubTrackSpatial => "sub_track_spatial",
 			Kind::SubTrackOfSpatial => "sub_track_of_spatial",
+			Kind::SoundPersist => "sound_persist",
+			Kind::SubTrackOrphan => "sub_track_orphan",
 			Kind::SendTrack => "send_track",
 		}
 	}
@@ -115,7 +124,9 @@ impl Kind {
 			| Kind::SubTrack
 			| Kind::SubTrackNested
 			| Kind::SubTrackSpatial
-			| Kind::SubTrackOfSpatial => M_LEN | M_DROPS | M_ORDER | M_CAP,
+			| Kind::SubTrackOfSpatial
+			| Kind::SoundPersist
+			| Kind::SubTrackOrphan => M_LEN | M_DROPS | M_ORDER | M_CAP,
 			Kind::SendTrack => M_KEY | M_LEN | M_DROPS | M_ORDER | M_IDENT | M_RESOLVE | M_CAP,
 		}
 	}
@@ -129,10 +140,21 @@ impl Kind {
 		}
 	}
 	fn is_sound(self) -> bool {
-		matches!(self, Kind::SoundMain | Kind::SoundSub | Kind::SoundSpatial)
+		matches!(self, Kind::SoundMain | Kind::SoundSub | Kind::SoundSpatial | Kind::SoundPersist)
+	}
+	/// the storage belongs to a track that can be paused / resumed (the bookkeeping must not care)
+	fn has_parent(self) -> bool {
+		matches!(
+			self,
+			Kind::SoundSub | Kind::SoundSpatial | Kind::SubTrackNested | Kind::SubTrackOfSpatial | Kind::SoundPersist | Kind::SubTrackOrphan
+		)
+	}
+	/// the handle that owns the gameplay side of the storage can be dropped while the storage lives on
+	fn can_abandon(self) -> bool {
+		matches!(self, Kind::SoundPersist | Kind::SubTrackOrphan)
 	}
 	fn is_sub_track(self) -> bool {
-		matches!(self, Kind::SubTrack | Kind::SubTrackNested | Kind::SubTrackSpatial | Kind::SubTrackOfSpatial)
+		matches!(self, Kind::SubTrack | Kind::SubTrackNested | Kind::SubTrackSpatial | Kind::SubTrackOfSpatial | Kind::SubTrackOrphan)
 	}
 	/// how a creation of this kind can fail, as the code orders things (table in C08/Model.v):
 	/// (late, built) = (the user code that fails runs AFTER try_reserve, a payload had been built)
@@ -180,6 +202,11 @@ enum Op {
 	Callback,
 	/// a creation attempt that fails the way `Kind::fail_shape` says
 	CreateFailing,
+	/// the track that owns the storage: 0 pause, 1 resume (both with a zero-length tween), 2 resume at a
+	/// time of a clock that never ticks (waiting to resume)
+	Parent(u8),
+	/// drop the handle of the track that owns the storage (the storage lives on)
+	Abandon,
 }
 fn ops_term_of(kind: Kind, ops: &[Op]) -> String {
 	let (late, built) = kind.fail_shape().unwrap_or((false, false));
@@ -189,6 +216,8 @@ fn ops_term_of(kind: Kind, ops: &[Op]) -> String {
 			Op::Mark(p) => format!("OMark {p}"),
 			Op::Callback => "OCallback".to_string(),
 			Op::CreateFailing => format!("OCreateFailing {late} {built}"),
+			Op::Parent(w) => format!("OParent {w}"),
+			Op::Abandon => "OAbandon".to_string(),
 		})
 		.collect::<Vec<_>>()
 		.join("; ")
@@ -539,6 +568,10 @@ struct World {
 	tracks: Vec<(usize, Option<AnyTrack>)>,
 	sends: Vec<(usize, Option<SendTrackHandle>)>,
 	builtin: Vec<(usize, Option<BuiltinMod>)>,
+	/// handles of the tracks nested INSIDE a created sub-track (dropped together with it)
+	inner_tracks: Vec<(usize, Vec<TrackHandle>)>,
+	/// a clock that never ticks (for `resume_at`)
+	idle_clock: Option<ClockHandle>,
 	keep_tracks: Vec<TrackHandle>,
 	keep_spatial: Vec<SpatialTrackHandle>,
 	/// payload ids of the successful creations, in creation order
@@ -580,19 +613,23 @@ impl World {
 			Kind::SoundMain => main = main.sound_capacity(cap),
 			Kind::SubTrack | Kind::SubTrackSpatial => caps.sub_track_capacity = cap,
 			Kind::SendTrack => caps.send_track_capacity = cap,
-			Kind::SoundSub | Kind::SoundSpatial | Kind::SubTrackNested | Kind::SubTrackOfSpatial => {}
+			Kind::SoundSub | Kind::SoundSpatial | Kind::SubTrackNested | Kind::SubTrackOfSpatial | Kind::SoundPersist | Kind::SubTrackOrphan => {}
 		}
 		let mut mgr = manager(1000, 16, caps, main);
 		let sh = new_shared();
 		let mut parent = None;
 		let mut parent_sp = None;
 		let mut listener = None;
-		if matches!(kind, Kind::SoundSpatial | Kind::SubTrackNested | Kind::SubTrackSpatial | Kind::SubTrackOfSpatial) {
+		let idle_clock = if kind.has_parent() { Some(mgr.add_clock(ClockSpeed::TicksPerSecond(1.0)).expect("aux clock")) } else { None };
+		if matches!(kind, Kind::SoundSpatial | Kind::SubTrackNested | Kind::SubTrackSpatial | Kind::SubTrackOfSpatial | Kind::SubTrackOrphan) {
 			listener = Some(mgr.add_listener(zero3(), quat_id()).expect("aux listener"));
 		}
 		match kind {
 			Kind::SoundSub => parent = Some(mgr.add_sub_track(TrackBuilder::new().sound_capacity(cap)).expect("parent track")),
-			Kind::SubTrackNested => parent = Some(mgr.add_sub_track(TrackBuilder::new().sub_track_capacity(cap)).expect("parent track")),
+			Kind::SubTrackNested | Kind::SubTrackOrphan => parent = Some(mgr.add_sub_track(TrackBuilder::new().sub_track_capacity(cap)).expect("parent track")),
+			Kind::SoundPersist => {
+				parent = Some(mgr.add_sub_track(TrackBuilder::new().sound_capacity(cap).persist_until_sounds_finish(true)).expect("parent track"))
+			}
 			Kind::SoundSpatial => {
 				let id = listener.as_ref().unwrap().id();
 				parent_sp = Some(mgr.add_spatial_sub_track(id, zero3(), SpatialTrackBuilder::new().sound_capacity(cap)).expect("parent spatial track"))
@@ -618,6 +655,8 @@ impl World {
 			tracks: vec![],
 			sends: vec![],
 			builtin: vec![],
+			inner_tracks: vec![],
+			idle_clock,
 			keep_tracks: vec![],
 			keep_spatial: vec![],
 			created: vec![],
@@ -631,10 +670,10 @@ impl World {
 			Kind::Clock => self.mgr.clock_capacity(),
 			Kind::Listener => 0,
 			Kind::SoundMain => self.mgr.main_track().sound_capacity(),
-			Kind::SoundSub => self.parent.as_ref().unwrap().sound_capacity(),
+			Kind::SoundSub | Kind::SoundPersist => self.parent.as_ref().unwrap().sound_capacity(),
 			Kind::SoundSpatial => self.parent_sp.as_ref().unwrap().sound_capacity(),
 			Kind::SubTrack | Kind::SubTrackSpatial => self.mgr.sub_track_capacity(),
-			Kind::SubTrackNested => self.parent.as_ref().unwrap().sub_track_capacity(),
+			Kind::SubTrackNested | Kind::SubTrackOrphan => self.parent.as_ref().unwrap().sub_track_capacity(),
 			Kind::SubTrackOfSpatial => self.parent_sp.as_ref().unwrap().sub_track_capacity(),
 			Kind::SendTrack => self.mgr.send_track_capacity(),
 		}
@@ -645,10 +684,10 @@ impl World {
 			Kind::Clock => self.mgr.num_clocks(),
 			Kind::Listener => 0,
 			Kind::SoundMain => self.mgr.main_track().num_sounds(),
-			Kind::SoundSub => self.parent.as_ref().unwrap().num_sounds(),
+			Kind::SoundSub | Kind::SoundPersist => self.parent.as_ref().unwrap().num_sounds(),
 			Kind::SoundSpatial => self.parent_sp.as_ref().unwrap().num_sounds(),
 			Kind::SubTrack | Kind::SubTrackSpatial => self.mgr.num_sub_tracks(),
-			Kind::SubTrackNested => self.parent.as_ref().unwrap().num_sub_tracks(),
+			Kind::SubTrackNested | Kind::SubTrackOrphan => self.parent.as_ref().unwrap().num_sub_tracks(),
 			Kind::SubTrackOfSpatial => self.parent_sp.as_ref().unwrap().num_sub_tracks(),
 			Kind::SendTrack => self.mgr.num_send_tracks(),
 		}
@@ -657,7 +696,7 @@ impl World {
 	/// `play` on the track whose sound storage is under test
 	fn play_any<D: SoundData>(&mut self, data: D) -> Result<D::Handle, PlaySoundError<D::Error>> {
 		match self.kind {
-			Kind::SoundSub => self.parent.as_mut().unwrap().play(data),
+			Kind::SoundSub | Kind::SoundPersist => self.parent.as_mut().unwrap().play(data),
 			Kind::SoundSpatial => self.parent_sp.as_mut().unwrap().play(data),
 			_ => self.mgr.play(data),
 		}
@@ -668,13 +707,13 @@ impl World {
 	fn add_track_any(&mut self, pid: usize, fail_init: bool) -> Result<AnyTrack, ()> {
 		let sh = self.sh.clone();
 		let eff = ProbeEffectBuilder { pid, sh, record_input: false, fail_init };
-		let spatial = matches!(self.kind, Kind::SubTrackNested | Kind::SubTrackSpatial | Kind::SubTrackOfSpatial) && pid % 2 == 1;
+		let spatial = matches!(self.kind, Kind::SubTrackNested | Kind::SubTrackSpatial | Kind::SubTrackOfSpatial | Kind::SubTrackOrphan) && pid % 2 == 1;
 		if spatial {
 			let id = self.listener.as_ref().unwrap().id();
 			let b = SpatialTrackBuilder::new().with_effect(eff);
 			match self.kind {
 				Kind::SubTrackSpatial => self.mgr.add_spatial_sub_track(id, zero3(), b),
-				Kind::SubTrackNested => self.parent.as_mut().unwrap().add_spatial_sub_track(id, zero3(), b),
+				Kind::SubTrackNested | Kind::SubTrackOrphan => self.parent.as_mut().unwrap().add_spatial_sub_track(id, zero3(), b),
 				_ => self.parent_sp.as_mut().unwrap().add_spatial_sub_track(id, zero3(), b),
 			}
 			.map(AnyTrack::Spatial)
@@ -683,7 +722,7 @@ impl World {
 			let b = TrackBuilder::new().with_effect(eff);
 			match self.kind {
 				Kind::SubTrack | Kind::SubTrackSpatial => self.mgr.add_sub_track(b),
-				Kind::SubTrackNested => self.parent.as_mut().unwrap().add_sub_track(b),
+				Kind::SubTrackNested | Kind::SubTrackOrphan => self.parent.as_mut().unwrap().add_sub_track(b),
 				_ => self.parent_sp.as_mut().unwrap().add_sub_track(b),
 			}
 			.map(AnyTrack::Plain)
@@ -751,7 +790,7 @@ impl World {
 				}
 				Err(_) => CreateRes::Limit,
 			},
-			Kind::SoundMain | Kind::SoundSub | Kind::SoundSpatial => {
+			Kind::SoundMain | Kind::SoundSub | Kind::SoundSpatial | Kind::SoundPersist => {
 				// the payload is built before the reservation: the id is consumed by every attempt
 				let pid = sh.next_pid.fetch_add(1, Ordering::SeqCst);
 				let fin = Arc::new(AtomicBool::new(false));
@@ -766,7 +805,7 @@ impl World {
 					Err(_) => panic!("unexpected play error"),
 				}
 			}
-			Kind::SubTrack | Kind::SubTrackNested | Kind::SubTrackSpatial | Kind::SubTrackOfSpatial => {
+			Kind::SubTrack | Kind::SubTrackNested | Kind::SubTrackSpatial | Kind::SubTrackOfSpatial | Kind::SubTrackOrphan => {
 				let pid = sh.next_pid.fetch_add(1, Ordering::SeqCst);
 				match self.add_track_any(pid, false) {
 					Ok(mut h) => {
@@ -775,6 +814,22 @@ impl World {
 						match &mut h {
 							AnyTrack::Plain(t) => t.play(inner).expect("inner sound"),
 							AnyTrack::Spatial(t) => t.play(inner).expect("inner sound"),
+						}
+						// two of three tracks get a track nested inside them, one of three a chain of two: all
+						// these handles are dropped in the same interval as the track's own (`mark`), and the
+						// track has to be gone at the next callback all the same
+						if pid % 3 != 0 {
+							let mut chain = vec![];
+							let mut c = match &mut h {
+								AnyTrack::Plain(t) => t.add_sub_track(TrackBuilder::new()).expect("inner track"),
+								AnyTrack::Spatial(t) => t.add_sub_track(TrackBuilder::new()).expect("inner track"),
+							};
+							if pid % 3 == 2 {
+								let g = c.add_sub_track(TrackBuilder::new()).expect("inner inner track");
+								chain.push(g);
+							}
+							chain.push(c);
+							self.inner_tracks.push((pid, chain));
 						}
 						self.tracks.push((pid, Some(h)));
 						self.created.push(pid);
@@ -893,6 +948,36 @@ impl World {
 				drop(h.take());
 			}
 		}
+		for (pid, hs) in self.inner_tracks.iter_mut() {
+			if *pid == p {
+				hs.clear();
+			}
+		}
+	}
+
+	/// pause / resume / resume-at-never the track that owns the storage
+	fn parent_op(&mut self, what: u8) {
+		let instant = Tween { duration: std::time::Duration::ZERO, ..Default::default() };
+		let never = kira::StartTime::ClockTime(ClockTime { clock: self.idle_clock.as_ref().map(|c| c.id()).expect("idle clock"), ticks: 1, fraction: 0.0 });
+		if let Some(t) = self.parent.as_mut() {
+			match what {
+				0 => t.pause(instant),
+				1 => t.resume(instant),
+				_ => t.resume_at(never, instant),
+			}
+		}
+		if let Some(t) = self.parent_sp.as_mut() {
+			match what {
+				0 => t.pause(instant),
+				1 => t.resume(instant),
+				_ => t.resume_at(never, instant),
+			}
+		}
+	}
+
+	/// drop the handle of the track that owns the storage
+	fn abandon(&mut self) {
+		drop(self.parent.take());
 	}
 
 	/// one device callback on another OS thread
@@ -1183,6 +1268,9 @@ fn run_history_f(kind: Kind, cap: usize, ops: &[Op], flavour: Option<usize>) -> 
 	}
 	let mut dropped: HashSet<usize> = HashSet::new();
 	let mut inner_seen = 0usize;
+	// the count can be asked for as long as the handle that owns the storage exists
+	let mut len_ok = has(M_LEN);
+	let mut abandoned = false;
 	let mut keys_seen: HashSet<(i128, i128)> = HashSet::new();
 	// per id (creation order): has resolved once / has stopped resolving after that
 	let mut resolved_once: Vec<bool> = vec![];
@@ -1191,6 +1279,10 @@ fn run_history_f(kind: Kind, cap: usize, ops: &[Op], flavour: Option<usize>) -> 
 		let d0 = lk(&w.sh.drops).len();
 		match *op {
 			Op::Create => {
+				if abandoned {
+					flag(i, "invalid history: a creation after the owner's handle was dropped".to_string());
+					break;
+				}
 				let expect_ok = rf.would_succeed();
 				let alive = rf.count();
 				let r = catch(|| w.create());
@@ -1250,7 +1342,11 @@ fn run_history_f(kind: Kind, cap: usize, ops: &[Op], flavour: Option<usize>) -> 
 			}
 			Op::CreateFailing => {
 				let (late, _built) = kind.fail_shape().unwrap_or((false, false));
-				let before = if has(M_LEN) { Some(w.len()) } else { None };
+				if abandoned {
+					flag(i, "invalid history: a creation after the owner's handle was dropped".to_string());
+					break;
+				}
+				let before = if len_ok { Some(w.len()) } else { None };
 				let occupied = rf.count();
 				let full = !rf.would_succeed();
 				let r = w.create_failing(flavour.unwrap_or(i));
@@ -1288,6 +1384,19 @@ fn run_history_f(kind: Kind, cap: usize, ops: &[Op], flavour: Option<usize>) -> 
 						}
 					}
 				}
+			}
+			Op::Parent(what) => {
+				// nothing to do with the storage: no observable, nothing may change
+				if !abandoned {
+					w.parent_op(what);
+				}
+				continue;
+			}
+			Op::Abandon => {
+				w.abandon();
+				abandoned = true;
+				len_ok = false;
+				continue;
 			}
 			Op::Mark(p) => {
 				w.mark(p);
@@ -1362,7 +1471,7 @@ fn run_history_f(kind: Kind, cap: usize, ops: &[Op], flavour: Option<usize>) -> 
 			}
 		}
 		// suffix
-		if has(M_LEN) {
+		if len_ok {
 			let n = w.len();
 			obs.push(n as i128);
 			if n != rf.count() {
@@ -1418,7 +1527,46 @@ fn run_history_f(kind: Kind, cap: usize, ops: &[Op], flavour: Option<usize>) -> 
 			}
 		}
 	}
-	let nontrivial = rf.nontrivial();
+	// the owner's handle is gone: whatever the storage removed since then is parked in its unused-ring
+	// (theorem abandoned_owner_parks_payloads) and has to be destroyed WITH the owner, on a caller's thread:
+	// let everything finish, let the mixer remove the owner, and drain the mixer's unused-ring from here
+	if abandoned && fail.is_none() {
+		let pids: Vec<usize> = w.created.clone();
+		for p in &pids {
+			w.mark(*p);
+		}
+		let mut ok = true;
+		for _ in 0..4 {
+			if !matches!(w.callback(), Outcome::Ok(())) {
+				ok = false;
+			}
+		}
+		let d0 = lk(&w.sh.drops).len();
+		let i0 = lk(&w.sh.inner_drops).len();
+		let at_end = |what: String| format!("{} capacity {} ops [{}] after the history (everything marked, 4 callbacks, then a top-level add_sub_track on the caller's thread): {}", kind.name(), cap, ops_term_of(kind, ops), what);
+		if !ok {
+			fail = Some(at_end(format!("a callback panicked: {}", last_panic())));
+		} else if lk(&w.sh.drops)[..d0].iter().chain(lk(&w.sh.inner_drops)[..i0].iter()).any(|(_, other)| *other) {
+			fail = Some(at_end("a payload was destroyed on the callback thread".to_string()));
+		} else {
+			let _t = catch(|| w.mgr.add_sub_track(TrackBuilder::new()).ok());
+			let all: Vec<(usize, bool)> = lk(&w.sh.drops).clone();
+			let inner: Vec<(usize, bool)> = lk(&w.sh.inner_drops).clone();
+			if all.iter().chain(inner.iter()).any(|(_, other)| *other) {
+				fail = Some(at_end("a payload was destroyed on another thread than the caller's".to_string()));
+			} else {
+				let gone: HashSet<usize> = all.iter().map(|(p, _)| *p).collect();
+				if gone.len() != all.len() {
+					fail = Some(at_end("a payload was destroyed twice".to_string()));
+				}
+				let missing: Vec<usize> = pids.iter().copied().filter(|p| !gone.contains(p)).collect();
+				if !missing.is_empty() && fail.is_none() {
+					fail = Some(at_end(format!("payloads {missing:?} are still not destroyed although their owner was removed and handed back")));
+				}
+			}
+		}
+	}
+	let nontrivial = rf.nontrivial() || abandoned;
 	FAILED_CREATIONS.fetch_add(rf.failed_n, Ordering::SeqCst);
 	LATE_LEAKS.fetch_add(rf.leaked, Ordering::SeqCst);
 	drop(w);
@@ -1434,12 +1582,18 @@ struct Gen {
 	rf: RefSim,
 	ops: Vec<Op>,
 	max_success: usize,
+	kind: Kind,
+	abandoned: bool,
 }
 impl Gen {
 	fn new(kind: Kind, cap: usize) -> Self {
-		Gen { rf: RefSim::new(kind, cap), ops: vec![], max_success: kind.max_success() }
+		Gen { rf: RefSim::new(kind, cap), ops: vec![], max_success: kind.max_success(), kind, abandoned: false }
 	}
 	fn create(&mut self) {
+		if self.abandoned {
+			self.callback();
+			return;
+		}
 		if self.rf.res.len() >= self.max_success && self.rf.would_succeed() {
 			self.callback();
 			return;
@@ -1451,8 +1605,24 @@ impl Gen {
 		self.rf.callback();
 		self.ops.push(Op::Callback);
 	}
+	/// pause (0) / resume (1) / resume-at-never (2) the track that owns the storage (kinds that have one)
+	fn parent(&mut self, what: u8) {
+		if self.kind.has_parent() && !self.abandoned {
+			self.ops.push(Op::Parent(what));
+		}
+	}
+	/// drop the owner's handle (kinds where the storage can outlive it); no creation afterwards
+	fn abandon(&mut self) {
+		if self.kind.can_abandon() && !self.abandoned {
+			self.abandoned = true;
+			self.ops.push(Op::Abandon);
+		}
+	}
 	/// a failing creation (nothing for the kinds that have none)
 	fn fail(&mut self) {
+		if self.abandoned {
+			return;
+		}
 		if self.rf.fail_shape.is_some() {
 			self.rf.fail();
 			self.ops.push(Op::CreateFailing);
@@ -1485,6 +1655,9 @@ impl Gen {
 		}
 	}
 	fn fill(&mut self) {
+		if self.abandoned {
+			return;
+		}
 		let mut guard = 0;
 		while self.rf.would_succeed() && self.rf.res.len() < self.max_success && guard < 300 {
 			self.create();
@@ -1548,11 +1721,87 @@ fn enumerate(kind: Kind, cap: usize, len: usize, with_failures: bool) -> Vec<Vec
 	out
 }
 
+/// every history "prefix; OAbandon; tail": prefix = an enumerated history of at most `l1` operations, tail =
+/// every sequence of exactly `l2` operations over {Callback, Mark oldest, Mark newest} (no creation is
+/// possible once the owner's handle is gone)
+fn enumerate_abandon(kind: Kind, cap: usize, l1: usize, l2: usize) -> Vec<Vec<Op>> {
+	fn tail(rf: &RefSim, ops: &mut Vec<Op>, left: usize, out: &mut Vec<Vec<Op>>) {
+		if left == 0 {
+			out.push(ops.clone());
+			return;
+		}
+		{
+			let mut r2 = rf.clone();
+			r2.callback();
+			ops.push(Op::Callback);
+			tail(&r2, ops, left - 1, out);
+			ops.pop();
+		}
+		let m = rf.markable();
+		let mut targets: Vec<usize> = vec![];
+		if let Some(p) = m.first() {
+			targets.push(*p);
+		}
+		if let Some(p) = m.last() {
+			if !targets.contains(p) {
+				targets.push(*p);
+			}
+		}
+		for p in targets {
+			let mut r2 = rf.clone();
+			r2.mark(p);
+			ops.push(Op::Mark(p));
+			tail(&r2, ops, left - 1, out);
+			ops.pop();
+		}
+	}
+	let mut out = vec![];
+	for len in 1..=l1 {
+		for prefix in enumerate(kind, cap, len, false) {
+			let mut rf = RefSim::new(kind, cap);
+			for op in &prefix {
+				match op {
+					Op::Create => {
+						rf.create();
+					}
+					Op::Mark(p) => rf.mark(*p),
+					Op::Callback => rf.callback(),
+					_ => {}
+				}
+			}
+			// something has to be alive for the storage to outlive the handle in an interesting way
+			if rf.live() == 0 {
+				continue;
+			}
+			let mut ops = prefix.clone();
+			ops.push(Op::Abandon);
+			tail(&rf, &mut ops, l2, &mut out);
+		}
+	}
+	out
+}
+
 fn gen_random(r: &mut Rng, kind: Kind, cap: usize) -> Vec<Op> {
 	let len = r.range(5, 40) as usize;
 	let mut g = Gen::new(kind, cap);
 	let choices = if kind.fail_shape().is_some() { 18 } else { 13 };
+	// the owner's handle goes away somewhere in the history (half of the histories of the kinds that can)
+	let abandon_at = if kind.can_abandon() && r.chance(1, 2) { r.range(2, len as i64) as usize } else { usize::MAX };
 	while g.ops.len() < len {
+		if g.ops.len() >= abandon_at {
+			g.abandon();
+		}
+		if kind.has_parent() && r.chance(1, 5) {
+			// the owner is paused / resumed / left waiting: the bookkeeping must not care
+			match r.below(6) {
+				0 | 1 | 2 => g.parent(0),
+				3 | 4 => g.parent(1),
+				_ => g.parent(2),
+			}
+			if r.chance(2, 3) {
+				g.callback();
+			}
+		}
 		match r.below(choices) {
 			13 | 14 => g.fail(),
 			15 => {
@@ -1663,6 +1912,102 @@ fn gen_boundary(kind: Kind, cap: usize) -> Vec<Vec<Op>> {
 		return out;
 	}
 	let big = cap > 16;
+	if kind.has_parent() {
+		// seeded/C08-paused-track-skips-bookkeeping/demo.rs: a child dropped while its parent is paused is gone
+		// at the next callback and its slot can be used again; the same while waiting to resume
+		for how in [0u8, 2] {
+			let mut g = Gen::new(kind, cap);
+			if !big {
+				g.fill();
+			} else {
+				g.create();
+				g.create();
+			}
+			g.callback();
+			g.parent(0);
+			g.callback();
+			g.callback();
+			if how == 2 {
+				g.parent(2);
+				g.callback();
+			}
+			g.mark_oldest();
+			g.callback();
+			g.create();
+			g.create();
+			g.callback();
+			g.mark_all();
+			g.callback();
+			g.callback();
+			g.create();
+			g.callback();
+			g.parent(1);
+			g.callback();
+			g.mark_all();
+			g.callback();
+			out.push(g.ops);
+		}
+		// created, picked up and finished entirely under a paused owner
+		{
+			let mut g = Gen::new(kind, cap);
+			g.parent(0);
+			g.callback();
+			g.create();
+			g.callback();
+			g.mark_newest();
+			g.callback();
+			g.create();
+			g.mark_newest();
+			g.callback();
+			g.callback();
+			g.create();
+			g.callback();
+			out.push(g.ops);
+		}
+	}
+	if kind.can_abandon() {
+		// seeded/C08-abandoned-unused-queue-drops-on-audio-thread/demo.rs: the owner's handle is dropped while
+		// its resources are alive; they finish later
+		{
+			let mut g = Gen::new(kind, cap);
+			g.create();
+			g.create();
+			g.callback();
+			g.abandon();
+			g.callback();
+			g.mark_newest();
+			g.callback();
+			g.callback();
+			g.mark_all();
+			g.callback();
+			g.callback();
+			out.push(g.ops);
+		}
+		// … with removals before the handle goes (the ring already holds payloads), a resource that is still
+		// queued when it goes, and a paused owner
+		{
+			let mut g = Gen::new(kind, cap);
+			if !big {
+				g.fill();
+			} else {
+				g.create();
+				g.create();
+			}
+			g.callback();
+			g.mark_oldest();
+			g.callback();
+			g.create();
+			g.parent(0);
+			g.abandon();
+			g.callback();
+			g.mark_oldest();
+			g.callback();
+			g.mark_all();
+			g.callback();
+			g.callback();
+			out.push(g.ops);
+		}
+	}
 	if kind.fail_shape().is_some() {
 		// a failed creation on an empty storage, callbacks, then the whole capacity is still there
 		// (seeded/C08-reserve-leak-on-failed-sound/demo.rs, first test, with capacity 2)
@@ -2431,6 +2776,10 @@ fn parse_ops(s: &str) -> Vec<Op> {
 				Some(Op::Callback)
 			} else if t.starts_with("OCreateFailing") {
 				Some(Op::CreateFailing)
+			} else if t == "OAbandon" {
+				Some(Op::Abandon)
+			} else if let Some(w) = t.strip_prefix("OParent") {
+				w.trim().parse().ok().map(Op::Parent)
 			} else if let Some(p) = t.strip_prefix("OMark") {
 				p.trim().parse().ok().map(Op::Mark)
 			} else {
@@ -2502,6 +2851,28 @@ pub fn run(args: &Args) {
 			}
 			for ops in enumerate(kind, 0, 3, true) {
 				emit(&mut s, &mut seen, kind, 0, &ops);
+			}
+		}
+		// (a2) exhaustive, under an owner that is paused / waiting to resume from the start
+		if kind.has_parent() {
+			let lp = 4 + if args.thorough { 2 } else { 0 };
+			for prefix in [vec![Op::Parent(0), Op::Callback], vec![Op::Parent(0), Op::Callback, Op::Parent(2), Op::Callback]] {
+				for cap in [1usize, 2] {
+					for ops in enumerate(kind, cap, lp, false) {
+						let mut h = prefix.clone();
+						h.extend(ops);
+						emit(&mut s, &mut seen, kind, cap, &h);
+					}
+				}
+			}
+		}
+		// (a3) exhaustive, the owner's handle dropped in the middle
+		if kind.can_abandon() {
+			let (l1, l2) = if args.thorough { (4, 4) } else { (3, 3) };
+			for cap in [1usize, 2] {
+				for ops in enumerate_abandon(kind, cap, l1, l2) {
+					emit(&mut s, &mut seen, kind, cap, &ops);
+				}
 			}
 		}
 		// (c) boundary
